@@ -119,6 +119,8 @@ class C02(Harness):
         out["all_in"] = bool(fh.is_all_in_sample(c))
         out["all_out"] = bool(fh.is_all_out_of_sample(c))
         out["indexer"] = L(fh.to_indexer(c))
+        if cell["rel"]:  # a relative horizon needs no cutoff for its indexer
+            out["indexer_nocutoff"] = L(fh.to_indexer())
         out["abs_int"] = L(fh.to_absolute_int(start, c).to_pandas())
         out["len"] = len(fh)
         return out
@@ -224,6 +226,10 @@ class C02(Harness):
         P.check("indexer", len(out["indexer"]) == K)
         for a, r in zip(out["indexer"], relv):
             P.eq("indexer", a, r - 1)
+        if "indexer_nocutoff" in out:
+            P.check("indexer", len(out["indexer_nocutoff"]) == K)
+            for a, r in zip(out["indexer_nocutoff"], relv):
+                P.eq("indexer", a, r - 1, {"what": "to_indexer() without a cutoff"})
         for a, w in zip(out["abs_int"], absv):
             P.eq("absolute-int", a, w - start)
 
